@@ -60,6 +60,8 @@ def zoo(tier, kinds=('uni', 'biv', 'gm', 'vine'), unfitted=True):
                 out.append(('uni', m, d))
             if unfitted:
                 out.append(('uni', m, None))
+        # weights together with sample_size (which must then equal the number of rows)
+        out.append(('uni', ('kde', 'scott', 30, True), ('normal', 0.0, 1.0, 30)))
     if 'biv' in kinds:
         out += [('biv', f, t) for f, t in BIV if unfitted or t is not None]
     if 'gm' in kinds:
